@@ -36,7 +36,7 @@
 (***************************************************************************)
 EXTENDS AsCore, Json, IOUtils
 
-VARIABLES l, base, ca, ab, mp, cw, tl,
+VARIABLES base, ca, ab, mp, cw, tl,
           ph, o, d, glob, keptq, cur, pass1, lastpe, resid, lastst, prevdiag
 mine == <<base, ca, ab, mp, cw, tl>>
 vars == <<l, base, ca, ab, mp, cw, tl, ph, o, d, glob, keptq, cur, pass1, lastpe, resid, lastst, prevdiag>>
@@ -65,39 +65,11 @@ Pass(e) ==
 
 \* ---- one statement = one step of every machine -----------------------------------------------------------------
 Stmt(e) ==
-  LET ifpre  == ca.ifasm
-      recpre == mp.outs # <<>>
-      quiet  == ~HasErr(e.dg)
-      fd     == FoldDiags(o, d, e.dg, 1)
-      here   == [nl |-> e.nl, tx |-> e.tx, dp |-> e.dp, em |-> e.em]
-  IN /\ ph = "pass"
-     /\ fd[1]
-     /\ \E tg \in Deliver(Tx, mp.tags, Append(e.pre, here), 1) :
-        \E c \in CACands(ca, tg, e) :
-          /\ CAMatches(c, e)
-          /\ MachineErrorIsReported(ca, c, e.dg)
-          /\ \E m \in Produce([mp EXCEPT !.tags = tg], e, l, ifpre, Len(ca.stk), quiet) :
-               /\ Claim("TagDepthIsMachineDepth", Len(m.tags) = e.tagd)
-               /\ (m.outs # <<>>) = e.rec
-               /\ \E h \in AfterHandler(ab, e, quiet) :
-                    LET r   == Chunks(Recs, h, cw, e.ch, 1)
-                        nab == BodyAdvance(r[2], e)
-                    IN /\ r[1]
-                       /\ PostOK(nab, e)
-                       /\ SkippedIsInert(e, ca, ab, nab)
-                       /\ RecordedIsInert(e, ca, c, ab, nab)
-                       /\ IfFamilyIsAddressNeutral(e, ab, nab)
-                       /\ ErrorLineEmitsNoCode(e, ifpre, recpre)
-                       /\ LabelValueIsExec(e, ab, ifpre, recpre)
-                       /\ \E d2 \in (IF IsUserOp(e, ifpre, recpre) THEN UserCands(o, fd[2], e, e.dg # <<>>)
-                                     ELSE {fd[2]}) :
-                            /\ d2.err = e.errs
-                            /\ ErrsDeltaIsDiagCount(d, d2, e.dg, d2.err - fd[2].err)
-                            /\ d' = d2 /\ ph' = DR!Dead(d2)
-                       /\ ca' = [c EXCEPT !.errs = 0, !.warns = 0]
-                       /\ ab' = nab /\ mp' = m /\ cw' = r[3]
-     /\ prevdiag' = FALSE /\ tl' = <<>>
-     /\ UNCHANGED <<base, o, glob, keptq, cur, pass1, lastpe, resid, lastst>>
+  /\ ph = "pass"
+  /\ \E n \in StmtSucc(Tx, Recs, o, [ca |-> ca, ab |-> ab, mp |-> mp, cw |-> cw, d |-> d], e) :
+       /\ ca' = n.ca /\ ab' = n.ab /\ mp' = n.mp /\ cw' = n.cw /\ d' = n.d /\ ph' = DR!Dead(n.d)
+  /\ prevdiag' = FALSE /\ tl' = <<>>
+  /\ UNCHANGED <<base, o, glob, keptq, cur, pass1, lastpe, resid, lastst>>
 
 \* lines handed out by GetNextLine that never reached Produce_Code
 Lines(e) ==
